@@ -191,7 +191,10 @@ pub trait ByteReader {
         Self: Sized,
         D: Deserializable,
     {
-        let mut result = Vec::with_capacity(num_elements);
+        // `num_elements` usually comes from the (untrusted) input itself: pre-allocate only a
+        // bounded amount and let the vector grow as elements are actually decoded
+        const MAX_PREALLOCATED_ELEMENTS: usize = 1024;
+        let mut result = Vec::with_capacity(num_elements.min(MAX_PREALLOCATED_ELEMENTS));
         for _ in 0..num_elements {
             let element = D::read_from(self)?;
             result.push(element)
